@@ -183,6 +183,11 @@ Definition triple (P : St -> Prop) (c : cmd St) (Qn Qb Qc : St -> Prop) : Prop :
 
 Lemma t_do (P : St -> Prop) f (Qn Qb Qc : St -> Prop) : (forall s, P s -> Qn (f s)) -> triple P (Do f) Qn Qb Qc.
 Proof. intros H fuel s s' k HP He. cbn in He. inversion He; subst. destruct (crashed (f s)); [exact I|apply H; exact HP]. Qed.
+Lemma t_do_nc (P : St -> Prop) f (Qn Qb Qc : St -> Prop) :
+  (forall s, P s -> crashed (f s) = false -> Qn (f s)) -> triple P (Do f) Qn Qb Qc.
+Proof.
+  intros H fuel s s' k HP He. cbn in He. inversion He; subst. destruct (crashed (f s)) eqn:C; [exact I|apply H; assumption].
+Qed.
 Lemma t_skip (P Qb Qc : St -> Prop) : triple P Skip P Qb Qc.
 Proof. intros fuel s s' k HP He. cbn in He. inversion He; subst. exact HP. Qed.
 Lemma t_break (P Qn Qc : St -> Prop) : triple P Break Qn P Qc.
